@@ -1137,7 +1137,7 @@ def _require_feasible():
     """A concretely false claim only counts on a feasible path (data forks are not checked for feasibility when taken)."""
     if CTX.pc_data == 0 and not CTX.assumptions:
         return
-    r, _ = _check(CTX.pc + CTX.defs, CTX.opts.get("reach_timeout_ms", 10000), aux=True)
+    r, _ = _check(CTX.pc, CTX.opts.get("reach_timeout_ms", 4000), aux=True)
     if r == "unsat":
         raise PathEnd("infeasible path (contradictory data conditions)")
 
@@ -1284,7 +1284,7 @@ def prove_equal(label, a, b, info=None):
     if r == "sat":
         raise PathViolation(_viol(label, s, info, a=a, b=b))
     if not same_fp:
-        w = _search_witness(ds, nz, tries=60)
+        w = _search_witness(ds, nz, tries=40)
         if w is not None:
             raise PathViolation(_viol(label, w, info, a=a, b=b))
     raise PathViolation(_viol(label, None, info, unknown=True))
@@ -1339,7 +1339,8 @@ def _viol(label, solver, info, unknown=False, concrete=False, a=None, b=None):
     elif not unknown:
         # a concrete refutation (no solver model needed): any model of the path condition is a witness
         try:
-            r, s = _check(CTX.pc + CTX.defs, 5000)
+            # any model of the path condition will do for a concrete refutation (atom definitions make model search slow)
+            r, s = _check(CTX.pc, 3000, aux=True)
             if r == "sat":
                 rec["model"] = model_values(s)
         except Exception:
@@ -1363,13 +1364,12 @@ def _nicer_model(solver, a, b):
         if name in CTX.control:
             extra.append(z3.Or(z3.Real(name) <= z3.RealVal("7/8"), z3.Real(name) == 1))
     if a is not None and b is not None:
-        d = diff_num(a, b)
+        d = diff_num(a, b)  # a - b = d / L with L the least common denominator
         den = z3.RealVal(1)
-        for x in (a, b):
-            for _, (ex, m) in x.df.items():
-                for _ in range(m):
-                    den = den * ex
-        extra.append(d * d * 1024 >= den * den)
+        for _, (ex, m) in SymReal._lcm(a.df, b.df).items():
+            for _ in range(m):
+                den = den * ex
+        extra.append(d * d * 1024 >= den * den)  # |a - b| >= 1/32
     s = z3.Solver()
     s.set("timeout", 8000)
     for c in cons + extra:
